@@ -203,7 +203,13 @@ pub fn run(ctx: &mut Ctx) -> Report {
     let child_mode = std::env::var("VERIF_C18_CHILD").is_ok();
     let idxs: Vec<u64> = match &ctx.replay {
         Some(r) => vec![r["case"]["index"].as_u64().unwrap_or(0)],
-        None => (0..n).collect(),
+        // corpus of past failures first: C01-space cases 67 and 139 (k = 32 with fallback minimizers:
+        // `1u64 << (2 * k)` in the fallback k-mer scan, defect D14) — then the stream
+        None => {
+            let mut v: Vec<u64> = vec![67, 139];
+            v.extend((0..n).filter(|i| *i != 67 && *i != 139));
+            v
+        }
     };
     // this profile's observations, in parallel
     let results = std::sync::Mutex::new(std::collections::BTreeMap::<u64, Value>::new());
